@@ -178,7 +178,8 @@ class Shard:
 
 def start_shard(ctx, sh, binary, testname, cwd, extra_env, timeout_s, only=None, case_timeout=None):
     sh.attempt += 1
-    logp = os.path.join(ctx["scratch"], "%s_s%d_a%d.jsonl" % (ctx["tag"], sh.idx, sh.attempt))
+    ctx["_nlog"] = ctx.get("_nlog", 0) + 1
+    logp = os.path.join(ctx["scratch"], "%s_s%d_a%d_%d.jsonl" % (ctx["tag"], sh.idx, sh.attempt, ctx["_nlog"]))
     outp = logp + ".out"
     env = goenv({
         "VERIF_PROP": ctx["prop"], "VERIF_SEED": str(ctx["seed"]), "VERIF_TIER": ctx["tier"],
